@@ -128,6 +128,30 @@ thread_local! {
     static QUIET: RefCell<bool> = RefCell::new(false);
 }
 
+/// ticks whenever a case is evaluated; the watchdog (see `start_watchdog`) ends the process with exit code 2 when
+/// it stands still for too long (an endless loop in the code under test must not hang the check for ever; a hang
+/// is reported as such, never as a violation)
+pub static PROGRESS: std::sync::atomic::AtomicU64 = std::sync::atomic::AtomicU64::new(0);
+
+pub fn start_watchdog() {
+    let limit: u64 = std::env::var("VERIF_WATCHDOG_S").ok().and_then(|x| x.parse().ok()).unwrap_or(900);
+    std::thread::spawn(move || {
+        let mut last = PROGRESS.load(std::sync::atomic::Ordering::Relaxed);
+        let mut since = std::time::Instant::now();
+        loop {
+            std::thread::sleep(std::time::Duration::from_secs(5));
+            let now = PROGRESS.load(std::sync::atomic::Ordering::Relaxed);
+            if now != last {
+                last = now;
+                since = std::time::Instant::now();
+            } else if since.elapsed().as_secs() > limit {
+                println!("WATCHDOG: no case finished for {} s - the code under test (or the harness) hangs; this is an infrastructure verdict (exit 2), not a violation", limit);
+                std::process::exit(2);
+            }
+        }
+    });
+}
+
 pub fn install_panic_hook() {
     let default = std::panic::take_hook();
     std::panic::set_hook(Box::new(move |info| {
@@ -318,6 +342,7 @@ impl Report {
         }
     }
     pub fn absorb(&mut self, out: CaseOut, tape: &[u64]) {
+        PROGRESS.fetch_add(1, std::sync::atomic::Ordering::Relaxed);
         self.evaluations += 1 + out.extra_evals;
         if let Some(h) = out.nontrivial {
             if self.nontrivial.insert(h) && self.samples.len() < 6 {
@@ -441,6 +466,7 @@ pub fn run_one<F>(prop: &F, tape: Vec<u64>) -> (CaseOut, Vec<u64>)
 where
     F: Fn(&mut Tape) -> CaseOut,
 {
+    PROGRESS.fetch_add(1, std::sync::atomic::Ordering::Relaxed);
     let mut t = Tape::replay(tape);
     let out = match guarded(|| prop(&mut t)) {
         Ok(o) => o,
